@@ -49,7 +49,18 @@ const (
 	modeOneByte
 	modeErrAt
 	modeTransientAt // one injected error when the stream position reaches k, then the stream continues
+	modeStalledAt   // from stream position k on every call fails with an error that calls itself temporary
 )
+
+// stallLimit: after this many fruitless calls the stalled source gives up with an ordinary error,
+// so that a decoder that waits for the source to recover ends after all.
+const stallLimit = 200000
+
+type temporaryError struct{}
+
+func (temporaryError) Error() string   { return "resource temporarily unavailable" }
+func (temporaryError) Temporary() bool { return true }
+func (temporaryError) Timeout() bool   { return true }
 
 var errInjected = errors.New("injected read error")
 
@@ -59,6 +70,8 @@ type faultReader struct {
 	mode  int
 	k     int
 	fired bool
+	// modeStalledAt: calls that delivered nothing since the stall began
+	stalled int
 }
 
 func (f *faultReader) Read(p []byte) (int, error) {
@@ -67,6 +80,13 @@ func (f *faultReader) Read(p []byte) (int, error) {
 	}
 	if f.mode == modeErrAt && f.pos >= f.k {
 		return 0, errInjected
+	}
+	if f.mode == modeStalledAt && f.pos >= f.k {
+		f.stalled++
+		if f.stalled > stallLimit {
+			return 0, errInjected
+		}
+		return 0, temporaryError{}
 	}
 	if f.mode == modeTransientAt && !f.fired && f.pos >= f.k {
 		f.fired = true
@@ -82,7 +102,7 @@ func (f *faultReader) Read(p []byte) (int, error) {
 	if n > len(f.data)-f.pos {
 		n = len(f.data) - f.pos
 	}
-	if (f.mode == modeErrAt || (f.mode == modeTransientAt && !f.fired)) && f.pos+n > f.k {
+	if (f.mode == modeErrAt || f.mode == modeStalledAt || (f.mode == modeTransientAt && !f.fired)) && f.pos+n > f.k {
 		n = f.k - f.pos
 	}
 	copy(p, f.data[f.pos:f.pos+n])
@@ -99,6 +119,7 @@ type result struct {
 	Alloc      uint64 `json:"alloc"`
 	NoProgress bool   `json:"noprogress,omitempty"`
 	Retries    int    `json:"retries,omitempty"` // calls made after a call had returned an error
+	Stalled    int    `json:"stalled,omitempty"` // fruitless Read calls made on a stalled source
 }
 
 func runDecoder(dec, mode, k int, data []byte) (res result) {
@@ -106,7 +127,9 @@ func runDecoder(dec, mode, k int, data []byte) (res result) {
 	if mode == modePlain {
 		rd = bytes.NewReader(data)
 	} else {
-		rd = &faultReader{data: data, mode: mode, k: k}
+		fr := &faultReader{data: data, mode: mode, k: k}
+		rd = fr
+		defer func() { res.Stalled = fr.stalled }()
 	}
 	limit := len(data) + 16
 	defer func() {
